@@ -962,7 +962,11 @@ where
 	// the reason is readable.
 	let _ = close_tx.send(res).await;
 	close_tx.closed().await;
-	from_frontend.close();
+	// Closing the transport may take long (or never finish) on a broken connection: let go of the queued
+	// requests, the pending calls and the subscriptions first, so that they fail resp. end without waiting
+	// for it.
+	drop(from_frontend);
+	drop(manager);
 	let _ = sender.close().await;
 }
 
